@@ -10,7 +10,7 @@
     all LIMITs.  [ts] is the u64 reading of the time field the code compares ([time_ok]: the time
     is present and non-negative, so that this reading orders like the integers).
 
-    KnownClass (decidable, in the model): [preceded_blocked g] (PrecededByBlockedByEarlyA),
+    KnownClass (decidable, in the model; PrecededByBlockedByEarlyA was retired by fix 49473e7):
     [negb (conjunctive_where fa fb wh ta tb)] (CrossTypeOrNot; with an un-prefixed comparison on a
     field only one schema declares: UnprefixedFieldAppliedToBothTypes, [has_unprefixed_one_sided]),
     [negb (time_ok e)] (TimeNotU64Ordered), [link_alias s s'] (LinkTextAliasesInteger), a link cell
@@ -87,36 +87,27 @@ Theorem C15_matched_iff_exists_followed_by : forall fa fb wh ta tb sa sb,
 Proof. exact matched_iff_exists_followed_by. Qed.
 Print Assumptions C15_matched_iff_exists_followed_by.
 
-(** The same statement is FALSE for PRECEDED BY: a@1, b@5, a@10 under one link value — a@10 is
-    preceded by b@5, the query returns nothing. *)
-Theorem C15_preceded_by_refuted :
-  let a1 := ev 0 7 1 f_x 0 in
-  let a2 := ev 1 7 10 f_x 0 in
-  let b := ev 0 7 5 f_y 0 in
-  seq_query PrecededBy None t_pa t_pb None [a1; a2] [b] = [] /\
-  In b [b] /\ linked a2 b /\ time_lt b a2 /\ spec_where [f_x] [f_y] None t_pa t_pb a2 b = true /\
-  existsb preceded_blocked (make_groups [a1; a2] [b]) = true.
-Proof. exact preceded_by_refuted. Qed.
-Print Assumptions C15_preceded_by_refuted.
-
-(** A blocked group (earliest a-row not after the earliest b-row, some a-row with an earlier b-row)
-    contributes no pair at all ... *)
-Theorem C15_preceded_blocked_group_empty : forall w g,
-  Sorted ts_le (g_b g) -> preceded_blocked g = true -> match_group PrecededBy w g = [].
-Proof. exact preceded_blocked_group_empty. Qed.
-Print Assumptions C15_preceded_blocked_group_empty.
-
-(** ... and outside that class PRECEDED BY satisfies the property: an a-event is matched if and only
-    if some b-event carries the same link value, is strictly earlier, and the pair satisfies WHERE. *)
-Theorem C15_matched_iff_exists_preceded_by_outside_known : forall fa fb wh ta tb sa sb,
+(** The property for PRECEDED BY on the composed pipeline — since fix 49473e7 without any KnownClass
+    of its own (before: refuted by a@1, b@5, a@10): an a-event is matched if and only if some
+    b-event carries the same link value, is strictly earlier, and the pair satisfies the WHERE. *)
+Theorem C15_matched_iff_exists_preceded_by : forall fa fb wh ta tb sa sb,
   bytes_eqb ta tb = false -> conjunctive_where fa fb wh ta tb = true ->
   (forall e, In e (sa ++ sb) -> time_ok e = true) ->
-  (forall g, In g (make_groups (sub_query wh ta sa) (sub_query wh tb sb)) -> preceded_blocked g = false) ->
   forall a, In a sa ->
   ((exists b, In (a, b) (seq_query PrecededBy wh ta tb None sa sb)) <->
    (exists b, In b sb /\ linked a b /\ time_lt b a /\ spec_where fa fb wh ta tb a b = true)).
-Proof. exact matched_iff_exists_preceded_by_outside_known. Qed.
-Print Assumptions C15_matched_iff_exists_preceded_by_outside_known.
+Proof. exact matched_iff_exists_preceded_by. Qed.
+Print Assumptions C15_matched_iff_exists_preceded_by.
+
+(** The PRECEDED BY sweep on time-sorted lists, when WHERE accepts every pair of the two lists: an
+    a-row is matched iff a strictly earlier b-row exists. *)
+Theorem C15_preceded_by_matched_iff : forall w la lb,
+  Sorted ts_le la -> Sorted ts_le lb ->
+  (forall a b, In a la -> In b lb -> w a b = true) ->
+  forall a, In a la ->
+  ((exists b, In (a, b) (preceded_by w la lb)) <-> (exists b, In b lb /\ ts b < ts a)).
+Proof. exact preceded_by_matched_iff. Qed.
+Print Assumptions C15_preceded_by_matched_iff.
 
 (** LIMIT bounds the number of matched sequences; the limited answer is a prefix of the unlimited. *)
 Theorem C15_limit_bounds : forall lk wh ta tb n la lb,
@@ -124,15 +115,3 @@ Theorem C15_limit_bounds : forall lk wh ta tb n la lb,
   matcher lk wh ta tb (Some n) la lb = firstn (N.to_nat n) (matcher lk wh ta tb None la lb).
 Proof. exact limit_bounds. Qed.
 Print Assumptions C15_limit_bounds.
-
-(** The proposed repair (fixes/C15-preceded-by-advance-a.diff: the final [else] branch advances the
-    a pointer; the model follows the Rust text through [Params.seq_pb_else_advances_a]) makes the
-    PRECEDED BY sweep exact: on time-sorted lists and a WHERE accepting every pair, an a-row is
-    matched iff a strictly earlier b-row exists. *)
-Theorem C15_preceded_by_fix_correct : forall w la lb,
-  Sorted ts_le la -> Sorted ts_le lb ->
-  (forall a b, In a la -> In b lb -> w a b = true) ->
-  forall a, In a la ->
-  ((exists b, In (a, b) (preceded_by_gen true w la lb)) <-> (exists b, In b lb /\ ts b < ts a)).
-Proof. exact preceded_by_fix_correct. Qed.
-Print Assumptions C15_preceded_by_fix_correct.
